@@ -802,6 +802,22 @@ def q_orphans(cfg, parts=('7', '8', '9')):
         for loc, name in double:
             res.ob(False)
             res.find(f, loc, 'the orphan list `%s` reaches a second sink: its requests would be executed twice' % name, key='Q-7:double:' + name, config=cfg.name)
+        # ---- Q-7d: the previous-interval orphan list is emptied BEFORE this function writes the current-interval list into it
+        PREV = 'orphaned_previous_interval_dealloc_requests'
+        dom7 = dominators(f)
+        takes_prev = [(b, i, e) for b, i, e in f.elements() if e.get('k') == 'call' and e.get('name') == 'take_orphan_list' and e.get('args') and atomics.field_path(f, e['args'][0]).endswith('.' + PREV)]
+        writes_prev = [(b, i, e) for b, i, e in f.elements() if atomics.is_atomic_call(e) and e.get('obj') is not None and atomics.field_path(f, e['obj']).endswith('.' + PREV)
+                       and ((e.get('name') or '').startswith('compare_exchange') or e.get('name') in ('store', 'exchange'))]
+        if len(takes_prev) != 1 or not writes_prev:
+            res.incompl('Q-7d: expected one take of the previous-interval orphan list and at least one write into it in epoch_change_barrier_and_handle_orphans (found %d / %d)' % (len(takes_prev), len(writes_prev)))
+        else:
+            tb, ti, te = takes_prev[0]
+            for wb, wi, we in writes_prev:
+                res.count('orphan rotation order sites')
+                ok = elem_dominates(f, dom7, (tb, ti), (wb, wi)) and (tb, ti) != (wb, wi) and not (tb in reachable_from(f, wb) and tb != wb)
+                res.ob(ok, {'rule': 'Q-7d', 'take': fileline(te.get('loc')), 'write': fileline(we.get('loc')), 'fact': 'the take of the previous-interval orphan list comes before every write into it on every path', 'verdict': 'discharged' if ok else 'VIOLATION'})
+                if not ok:
+                    res.find(f, te.get('loc'), 'epoch_change_barrier_and_handle_orphans takes (and frees) the previous-interval orphan list at %s after the current-interval list may have been written into it at %s: requests orphaned in the interval that just ended are executed at this epoch change, one epoch early - a registered thread that was not yet quiescent since they were retired may still use the memory' % (fileline(te.get('loc')), fileline(we.get('loc'))), key='Q-7d:rotation-order', config=cfg.name)
     # ---- Q-7b add_to_orphan_list
     for f in (anon(cfg, 'add_to_orphan_list') if '7' in parts else []):
         res.count('orphan push functions')
